@@ -20,6 +20,10 @@ import YarlProofs.C06More
   this file): GAPS 2 — the accessors / unquoters equal the INDEPENDENT textbook specification `Rfc.pctUtf8Decode`
   (`C06_headline_unquoter_is_pct_utf8_decoding`, `…_unquoter_keep_sets`, `…_accessors_are_pct_utf8_decodings`,
   `…_query_string_path_safe_decode_utf8`, `…_malformed_undecodable_verbatim_in_context`, `…_keep_and_plus_in_context`).
+  Continued further in C06HeadlineMore3.lean (C06More2.lean + Lemmas/Readback2.lean, C06Encoded.lean, added after both
+  files): `build(authority=)`, a str `query=`, `with_user("")`, URLs without authority, joinpath through `path`, the
+  `/` / joinpath read-backs on reachable URLs, the IDNA oracle of `host` (GAPS 3, 4, 6, 9, 10), and sentence 1a for
+  `encoded=True` URLs.
 
   Vocabulary.  `DecodeSpec b tab s` (C06Spec.lean) is the NON-incremental specification of percent-decoding: tokenize
   `s` into escapes `%XY` / plain characters, group maximal runs of escapes, decode each run as UTF-8 left to right
@@ -494,19 +498,49 @@ GAPS:
     WHAT REMAINS: `Rfc.pctUtf8Decode` is itself a specification written for this project (short, independent, with
     `C06_headline_spec_is_textbook` as its sanity theorem) — there is no external formal UTF-8 / RFC 3986 decoder to
     compare with; the `query` accessor is `parse_qsl` (errors='replace'), not this decoder (GAPS 1, F-C06-query-replace).
+    ADDED (C06_encoded_accessors, C06_build_encoded_accessors, C06Encoded.lean; see
+    C06_headline_encoded_true_accessors_are_decodings, C06_headline_build_encoded_true_accessors_are_decodings,
+    C06HeadlineMore3.lean): the same statement composed with C07's "encoded=True … verbatim" — for `URL(s, encoded=True)`
+    the string-valued decoded accessors are `Rfc.pctUtf8Decode` of the Appendix B components of the cleaned input (user /
+    password: of the RFC split of its authority) VERBATIM, for `build(…, encoded=True)` of the ARGUMENTS verbatim (a truthy
+    `query=` first rendered by `get_str_query`).  Corollaries only (the theorem above has no hypothesis on the URL); user /
+    password raise when the port text of the stored authority is no port.  `C06_encoded_str` (same module: `str()` of such
+    URLs) is C07's clause, not restated for C06.
  3. PARTLY CLOSED by C06_build_user_readback / _user_none / _password_readback / _password_none,
     C06_build_host_readback_lower / _ipv4 / _ipv6, C06_build_query_readback / _pairs / _mapping,
     C06_build_query_string_readback / _noplus / _plus_counterexample (C06More.lean), see
     C06_headline_build_user_password_readback, C06_headline_build_host_readback, C06_headline_build_query_readback,
-    C06_headline_build_query_string_readback, C06_headline_build_query_string_readback_fails_for_plus.
+    C06_headline_build_query_string_readback, C06_headline_build_query_string_readback_fails_for_plus; and NOW ALSO by
+    C06_build_authority_readback, C06_build_authority_host_name / _host_ipv4 / _host_ipv6,
+    C06_build_authority_written_readback, C06_build_authority_not_percent_decoded, C06_build_query_str_readback,
+    C06_build_query_str_single (C06More2.lean + Lemmas/Readback2.lean), see C06_headline_build_authority_readback,
+    C06_headline_build_authority_host_readback, C06_headline_build_authority_written_readback,
+    C06_headline_build_authority_readback_fails_for_percent_escapes, C06_headline_build_query_str_readback
+    (C06HeadlineMore3.lean).
     Proved, for `build(encoded=False)` without `authority=` and with `host=`: user (non-empty) and password (any, ""
     included) read back, absent / empty user and absent password read `None`; an ASCII registered name reads back
     lower-cased from raw_host (and from host under an oracle hypothesis, GAPS 10), IPv4 literals unchanged, IPv6
     literals canonical without brackets; `query=` pairs / mapping read back from `url.query` in both `encoded=` modes;
     `query_string=s` reads back from `query_string` as `s` with '+' replaced by ' ' (unchanged iff no '+').
-    Remains open: `build(authority=…)` (a raw text; nothing about its user / password / host accessors here);
-    non-ASCII `host=` (IDNA: C16, no read-back statement); `build(query="a=b")` (a str `query=`); whether the
-    `query_string=` / '+' behaviour is a deviation from the property (it is false by the letter, not in KNOWN_FINDINGS).
+    NOW ALSO proved: `build(authority=A)` (encoded=False).  Hypotheses: `A` is a Python string, `split_netloc(A)`
+    succeeds with a host text `h0` that is `HostTextOK` (a supported ASCII host text: a name / IPv4 text of visible
+    ASCII without `/ ? # @ [ ] :`, or an IPv6 literal with optional zone id), a host that is no IPv6 literal not being
+    written in brackets.  Then raw_user / raw_password are QUOTER of the userinfo texts of `A` (an empty user `None`);
+    `user` / `password` read back those texts VERBATIM (lone surrogates dropped) — the userinfo of `authority=` is
+    treated as DECODED text, '%' is stored "%25" (GAPS 11); raw_host is the name lower-cased / the IPv4 literal
+    unchanged / the IPv6 literal canonical without brackets, and so is `host` (for a name: under the oracle hypothesis
+    of GAPS 10); explicit_port is the port of `A`, or `None` when that is the default port of the lower-cased scheme;
+    `port` is the integer.  In "reads back unchanged" form: for `A = make_netloc(U, P, H, port)` written without
+    encoding (`UserOK U`, `HostOK H`, `HostTextOK H`, port ≤ 65535, no lone surrogates) `user` is `U`, `password` is `P`.
+    `build(query=s)` for a non-empty STRING `s`, BOTH `encoded=` modes: the stored query is QUERY_QUOTER(s), `url.query`
+    is the '&'-pieces of `s` (empty ones dropped) cut at the first '=', '+' read as space, NOTHING else decoded ('%' is
+    literal), `query_string` is `s` with '+' → ' '; one "k=w" text without '&' '+' (no '=' in `k`) reads back as (k, w).
+    A query STRING is not a sequence of decoded values ('&' '=' '+' are syntax), as for `query_string=`.
+    STILL OPEN: `build(authority=…)` whose host text is outside `HostTextOK` (IDN / non-ASCII, IPvFuture or another
+    bracketed non-IPv6 text, a name in brackets) or is missing (`np.host = None`); non-ASCII `host=` (IDNA:
+    C16, no read-back statement); whether the '+' behaviour of `query_string=` / a str `query=` is a deviation from the
+    property (false by the letter, not in KNOWN_FINDINGS); `build(…, encoded=True)`: no read-back claim is made or
+    intended (the arguments are raw texts there; what the accessors return: GAPS 2, ADDED).
  4. PARTLY CLOSED by C06_cached_with_user_readback / _with_password_readback, C06_ctor_with_user_readback /
     _with_password_readback, C06_netlocCanon_user_password_readback (C11Ctor.lean — that file IMPORTS this one, so the
     headline theorems are in the companion file C06HeadlineMore.lean), see
@@ -518,19 +552,38 @@ GAPS:
     cache included — under `GoodAuthority` (cache agrees with the stored authority) and `Written` (the stored authority
     is `make_netloc` text).  `NetlocCanon` / `GoodAuthority` are hypotheses there, not consequences of reachability
     alone (F-C03-bracket, F-C03-empty-authority violate them; IDN and IPvFuture hosts are outside `AuthInput`).
-    Remains open as before: with_user("") / with_password on a URL without host are not covered.
+    The former remainder (with_user("") / with_password on a URL without host) is NOW CLOSED by
+    C06_with_user_empty_written, C06_cached_with_user_empty, C06_ctor_with_user_empty,
+    C06_netlocCanon_with_user_empty, C06_with_user_password_no_authority, C06_no_host_iff_no_authority (C06More2.lean),
+    see C06_headline_with_user_empty_written, …_with_user_empty_cached_constructor, …_with_user_empty_invariant,
+    C06_headline_with_user_password_no_authority (C06HeadlineMore3.lean).  Proved, under the SAME hypotheses as the
+    read-back (record without cache with `make_netloc` authority; `Written` + cache agreement or constructor result
+    under `GoodAuthority`; `NetlocCanon` + non-empty authority): with_user("") removes the user and KEEPS the password
+    (authority ":pw@host"), `user` of the result is `None`, raw / decoded password, raw_host, explicit_port and the
+    other parts are unchanged, and it equals with_user(None) iff there is no password — so "reads back unchanged" is
+    FALSE for the text "" (it reads `None`; same observation as C11_headline_with_user_fails_for_empty; not in
+    KNOWN_FINDINGS, the property text has no such exception).  On EVERY record with an empty stored authority
+    with_user / with_password return ValueError for every argument (nothing to read back); "without host" (`raw_host` /
+    `host` is `None`) = "empty stored authority" is proved for records WITHOUT pre-filled cache only.
+    STILL OPEN: `NetlocCanon` / `GoodAuthority` / `Written` stay hypotheses (as above).
  5. CLOSED by C06_with_path_readback_nodots / _rootless / _rooted and C06_build_path_readback_nodots (C06More.lean), see
     C06_headline_with_path_readback_general, C06_headline_with_path_readback_fails_for_rootless,
     C06_headline_build_path_readback_dots.  with_path (any keep_query / keep_fragment) and build(path=) read back every
     text without dot SEGMENTS under an authority ('.' inside segments allowed; no restriction without an authority);
     with_path of the empty text reads "" / "/"; with_path of a ROOTLESS non-empty text reads back as "/" + text — "reads
-    back unchanged" is false there (not in KNOWN_FINDINGS).  What texts WITH dot segments under an authority read back
+    back unchanged" is false there (since recorded as KNOWN FINDING F-C06-path-rooted, which also names the empty text
+    under an authority reading "/"; the doc comment of C06_headline_with_path_readback_fails_for_rootless still says "NOT
+    in KNOWN_FINDINGS.jsonl").  What texts WITH dot segments under an authority read back
     as is the property's exception (C15).
  6. PARTLY CLOSED by C06_child_name_readback_dots, C06_child_slash_readback, C06_joinpath_parts_readback
     (C06More.lean), see C06_headline_child_readback_dots, C06_headline_child_slash_readback,
     C06_headline_joinpath_readback.  Proved: one segment with '.' through `name`; one text with '/' and '.' through
-    `parts`, `name` AND `path`; several arguments through `parts` and `name`.  Remains open: read-back through `path`
-    for several arguments; with_suffix (not in the property's list); the side conditions on the OLD path (GAPS 9).
+    `parts`, `name` AND `path`; several arguments through `parts` and `name`.  NOW ALSO, by C06_joinpath_path_readback
+    (C06More2.lean), see C06_headline_joinpath_path_readback (C06HeadlineMore3.lean): several arguments through `path` —
+    `u.joinpath(a₁, …, aₙ)` is the SAME URL as `u.joinpath("a₁/…/aₙ")` (a trailing '/' of a non-last argument not
+    doubled) and `path` is the old decoded path without ONE trailing slash, "/" and that text; same hypotheses as the
+    `parts` theorem.  Remains open: with_suffix (not in the property's list); the side conditions on the OLD path are
+    GAPS 9 (discharged for reachable URLs).
  7. PARTLY CLOSED by C06_with_name_readback_keep (C06More.lean), see C06_headline_with_name_readback_keep: with_name for
     ANY `keep_query` / `keep_fragment`.  Unchanged: with_query: `.str` arguments (a whole query string, where '+'
     and '%XY' are NOT decoded values) are rightly outside; float / bool / None values are C12.
@@ -538,12 +591,45 @@ GAPS:
     theorem chains two modifiers (e.g. with_user then with_path keeps `user`): that is property C11.
  9. NEW.  The `/` / joinpath theorems (C06_headline_child_readback, …_dots, …_slash_readback, …_joinpath_readback) assume
     of the OLD URL, under an authority, that its stored path has no dot segment (`hold` / first half of `hnd`) and is
-    empty or rooted (`hpath`).  Both hold for every URL reachable through the auto-encoding API
-    (C15_headline_reachable, C15Headline.lean, for `ReachC`), but that composition is not made in this file; for
-    `encoded=True` URLs they are genuine restrictions.
-10. NEW.  C06_headline_build_host_readback (i), decoded `host`: the hypothesis that the IDNA decoder maps an ASCII
+    empty or rooted (`hpath`).  CLOSED for URLs reachable through the auto-encoding API by C06_reachable_old_path_ok,
+    C06_reach_child_readback, C06_reach_child_slash_readback, C06_reach_joinpath_readback (C06More2.lean: the
+    composition with C15_headline_reachable), see C06_headline_reachable_old_path_ok,
+    C06_headline_child_readback_reachable, C06_headline_joinpath_readback_reachable (C06HeadlineMore3.lean).  Proved:
+    for every `ReachC e u` (constructor on a Python string, build(encoded=False), every modifier with Python-string
+    arguments, join) both side conditions hold, so the read-backs through `name` / `parts` / `path` hold with
+    conditions on the ARGUMENTS only (Python strings without lone surrogates, no dot segment under an authority, not
+    all empty on an empty path under an authority).  STILL OPEN: URLs made with `encoded=True` (constructor, build,
+    with_path / joinpath(encoded=True)) are outside `ReachC`; for them the side conditions are genuine restrictions
+    (a `build(path="x/../y", host=…, encoded=True)` result stores a rootless path with a dot segment under an
+    authority: C07_build_encoded_instance, C07Encoded.lean) and no read-back theorem covers them.
+10. C06_headline_build_host_readback (i), decoded `host`: the hypothesis that the IDNA decoder maps an ASCII
     lower-case name to itself is an assumption about the oracle (the `idna` package) with no discharging theorem; it is
     not needed for raw_host, for names ending in a digit without "xn--", or for IP literals.
+    SHARPENED (not closed) by C06_host_oracle_use, C06_build_host_readback_no_oracle, C06_build_host_readback_iff_oracle,
+    C06_build_host_readback_fails_for_oracle (C06More2.lean), see C06_headline_host_oracle_use,
+    C06_headline_build_host_readback_no_oracle, …_iff_oracle, …_fails_for_oracle (C06HeadlineMore3.lean).  Proved: for an
+    ASCII raw host `URL.host` consults NO oracle exactly when the raw host ends in a digit and has no "xn--", or has a
+    ':'; for those names (`build(host=x)`, `x` ASCII, not an IP literal, ending in a digit, no "xn--" in any case) the
+    read-back of the lower-cased name through `host` holds with NO oracle hypothesis; for EVERY other ASCII name `host`
+    is whatever `_idna_decode` answers ("example.com" included), and the read-back holds IF AND ONLY IF the answer is
+    the name itself — the hypothesis cannot be dropped.  For names WITH "xn--" it is FALSE in the library's real
+    behaviour: `URL.build(host="XN--Bcher-KVA.de").host == "bücher.de"` (witness with the real `idna` answer in the
+    oracle table; `host` is not in the property's list of accessors, raw_host reads the lower-cased A-label).
+    STILL OPEN: for names without "xn--" not ending in a digit the hypothesis remains an unproved assumption about the
+    `idna` package (it is not composed here with the oracle assumptions `IdnaSaneAt` / `IdnaRoundTripAt` of
+    C16Idn.lean); the same hypothesis is carried by C06_headline_build_authority_host_readback (i).
+11. NEW.  `build(authority=A)` QUOTES the userinfo of `A` as decoded text: a '%' in it is stored "%25", so
+    `URL.build(scheme="http", authority="us%41er:p%40w@h1:80")` has `user == "us%41er"` (not "usAer"), `password ==
+    "p%40w"`, `explicit_port is None` (80 is the default), `port == 80`, while the constructor on the same text REQUOTES
+    (`URL("http://us%41er:p%40w@h1:80").user == "usAer"`): C06_headline_build_authority_readback_fails_for_percent_escapes.
+    Under the reading "the userinfo of `authority=` is a decoded value" the property holds (GAPS 3); under the reading
+    "`authority=` is a raw authority, parsed like the constructor's" the escapes are double-encoded.  The property text
+    does not say which; NOT in KNOWN_FINDINGS.jsonl.  Also: explicit_port does not read back a port equal to the
+    scheme's default (`None`; `port` does) — `explicit_port` / `port` are not in the property's list of accessors.
+12. NEW.  The `build(authority=)` theorems carry `HostTextOK h0` and the bracket condition `hwrap` as hypotheses on the
+    host text of `A` (supported ASCII host kinds, as `AuthInput` in GAPS 4); nothing is proved about user / password
+    of `build(authority=A)` for an IDN / non-ASCII / IPvFuture host (the proof goes through the shape of the stored
+    authority, which Lemmas/Readback2.lean establishes for these host kinds only).
 -/
 
 end Yarl
